@@ -4,8 +4,9 @@ Decides the *encoding table*: for each of the 14 gates the affine combination th
 admissible input phases (+-1/8 +- 1/32 per input, as exact rational intervals on the torus), lies strictly inside
 the half-torus whose sign the truth table demands, and the value then bootstrapped / returned is +-1/8 with the
 right sign; bit encoding and sign decoding agree with it.
-Not decided: that bootstrapping, FFT and key switch deliver their contract (C04/C08/C09/C10) and that noise stays
-inside the margin (C02).
+R4 re-evaluates, for the FFT path the gates use, the exact bootstrapping-chain rules of C04 (modulus switch to 2N, initial
+rotation X^(2N-barb) with the barb = 0 copy, rotation loop, extraction, test vector, final key switch).
+Not decided: FFT accuracy and the external product's error (C09/C10) and that noise stays inside the margin (C02).
 """
 from fractions import Fraction as Fr
 from itertools import product
@@ -259,6 +260,13 @@ def run(chk):
                                 ffm.k, "".join(" %+d*u" % c for c in ffm.coef.values()), tot, Fr(1, 8) if want else Fr(-1, 8))
                     chk.require(bad is None, "R1", "bootsMUX row %s -> %d" % (row, want), where=where,
                                 ok="u = %s; output phase exactly %s1/8" % ([str(x) for x in vals.values()], "+" if want else "-"), bad=bad or "", variant=vn)
+        # ---------------- R4 the sign-bootstrap chain the gates call (C04's rules re-evaluated for the FFT path, plus the
+        # monomial map and the extraction map they rest on)
+        from rules import c04, c11, c14
+        sub = c04._Sub(chk, "R4")
+        c04.evaluate(sub, v, ("_FFT",))
+        c14.check_extraction(sub, v, rule="R4")
+        c11.check_monomial(sub, v, "torusPolynomialMulByXai", "coefsT", False)
         # ---------------- R2 encode / decode
         be = v.fn("bootsSymEncrypt")
         bps, _ = summ.pieces(v, be, hooks=NOINLINE)
